@@ -36,6 +36,10 @@ def profile_value(name):
     return Adt(p, 0, (Adt(c, 0, ()),))
 
 
+class UnexpectedCall(AnalysisError):
+    """The operation does something that is not a step of the specified pipeline."""
+
+
 class PipeWorld(OracleWorld):
     """Leaves answer Ok(("out", n)) / Err(("err", n)); every leaf call is logged as an event."""
 
@@ -72,7 +76,13 @@ class PipeWorld(OracleWorld):
             if isinstance(r, tuple) and r and r[0] is ip.INLINE:
                 return (ip.INLINE, r[1], r[2], lambda mm, ss, v: Ref(("val", v)))
             return Ref(("val", r))
-        return OracleWorld.call(self, m, st, callee, args, term)
+        r = OracleWorld.call(self, m, st, callee, args, term)
+        if r is None and p not in m.models and p not in self.prog.bodies and not callee.get("virtual"):
+            raise UnexpectedCall("calls %s, which is not a step of the specified pipeline (every transforming or inspecting step must be one of the profile's rules)" % callee["full"])
+        return r
+
+    def opaque_const(self, st, c):
+        return Opq("const", (c.get("ty"), c["k"]))
 
     def _content(self, m, st, v):
         v = deref_all(m, st, v)
